@@ -8,6 +8,15 @@ TB = ("Coq 8.16.1 kernel and vm_compute (no native_compute); hand-written Gallin
       "correspondence harness (harness/%s.py, float tolerance 1e-9 where floats occur); numpy/scipy/pandas primitives as modelled; ")
 
 CHECKS = {
+ "C01": dict(
+    cat="proof",
+    text="Theorems over R about the Snowflake step model (props/C01.v): each vial step is exactly one of liquid cooling / nucleation jump / "
+         "equilibrium solidification with the stated energy relations; indirect formula = eq. 9; direct root solves eq. 12, satisfies the "
+         "adiabatic balance and lies in (0,1); heat flow = k_int A * sum over geometric neighbours + exterior + shelf; inter-vial heat cancels "
+         "over the batch for every shape (via the C09 topology theorem). The same Gallina step at binary64 reproduces column k+1 of the "
+         "implementation's state matrix from column k on thousands of recorded steps, and whole-run statistics.",
+    ref="6 C01", technique="Rocq proof over R (field/nra) on a generic step model + one-step float correspondence by vm_compute + numpy restatement",
+    note=TB % "c01" + "nucleation decisions are inputs here (law: C03); H_shelf with random variability is observed from the object; rounding not analysed."),
  "C05": dict(
     cat="proof",
     text="Theorems over R for every program with positive rate/step/total time and end <= hold temperatures <= start (props/C05.v): "
